@@ -70,7 +70,7 @@ def _gen_one(i):
     from .verify import verify_contract
     from .explore import SolverCache
     c, tier = _GEN['mine'][i], _GEN['tier']
-    return verify_contract(_GEN['world'], c, SolverCache(timeout_ms=1000),
+    return verify_contract(_GEN['world'], c, SolverCache(timeout_ms=int(os.environ.get("VERIF_PRUNE_MS", 0)) or getattr(c, "prune_ms", None) or 1000),
                            max_paths=20000 if tier == 'thorough' else 8000)
 
 
@@ -80,7 +80,7 @@ def _light_worker(i):
     from .explore import SolverCache
     c, tier, timeout = _GEN['mine'][i], _GEN['tier'], _GEN['timeout']
     try:
-        rep = verify_contract(_GEN['world'], c, SolverCache(timeout_ms=1000),
+        rep = verify_contract(_GEN['world'], c, SolverCache(timeout_ms=int(os.environ.get("VERIF_PRUNE_MS", 0)) or getattr(c, "prune_ms", None) or 1000),
                               max_paths=20000 if tier == 'thorough' else 8000)
         discharge_parallel([rep], timeout, 1)
         retry_undischarged([rep], timeout * 2, limit=3)
@@ -128,7 +128,7 @@ def run_property(pid, tier, seed, only=None, jobs=None):
     # heavy contracts: generated here, obligations discharged in a pool
     for c in heavy:
         try:
-            rep = verify_contract(world, c, SolverCache(timeout_ms=1000),
+            rep = verify_contract(world, c, SolverCache(timeout_ms=int(os.environ.get("VERIF_PRUNE_MS", 0)) or getattr(c, "prune_ms", None) or 1000),
                                   max_paths=20000 if tier == 'thorough' else 8000)
             discharge_parallel([rep], timeout, jobs)
             retry_undischarged([rep], timeout * 3)
